@@ -4,6 +4,7 @@ import (
 	"encoding/json"
 	"fmt"
 	"math/rand"
+	"os"
 	"strings"
 	"sync"
 
@@ -301,6 +302,30 @@ func runWorldChecks(ctx *RunCtx, rep *Report, prop string, props []string, nShor
 		max, min := genSettings(r)
 		w := newWorld(prop, props, max, min, local, ctx.Seed, i, r)
 		runWorldTournament(w, r)
+	})
+	// the same histories with a host that fails: one callback call in 2..9 returns an error (no table can
+	// be opened, the table refuses the players). Fault injection at the only two points where the
+	// regulator depends on its host.
+	// (the regulator prints a line on standard output for every failed hand-over)
+	stdout := os.Stdout
+	if dn, err := os.OpenFile(os.DevNull, os.O_WRONLY, 0); err == nil {
+		os.Stdout = dn
+		defer func() { os.Stdout = stdout; dn.Close() }()
+	}
+	runCases(ctx, rep, 92, nShort/4+nLong/4, func(i int, r *rand.Rand, local *Report) {
+		max, min := genSettings(r)
+		w := newWorld(prop, props, max, min, local, ctx.Seed, i, r)
+		w.faultRate = 2 + r.Intn(8)
+		w.faultArmed = true
+		local.Inc("histories_with_failing_host")
+		switch {
+		case i%40 == 7:
+			runWorldTournament(w, r)
+		case i%9 == 4:
+			runWorldHoldDeadline(w, r, withSweep)
+		default:
+			runWorldHistory(w, r, withSweep)
+		}
 	})
 }
 
